@@ -34,7 +34,8 @@ Definition dump (st : state) : list tok :=
     ++ flat_map (fun t => map (fun k => tn_bool (mem k (rev_get t (rev s)))) keys) toks4
     ++ footprint s.
 
-Inductive cmd := CmdOp (o : op) | CmdDump | CmdNop | CmdBad.
+Inductive cmd := CmdOp (o : op) | CmdDump | CmdNop | CmdBad
+  | CmdPoolNew (mn mx : N) | CmdPool (o : pop).
 
 Definition parse (t : list tok) : cmd :=
   match t with
@@ -58,6 +59,12 @@ Definition parse (t : list tok) : cmd :=
       match args with [TN n] => CmdOp (OUnfill (zN n)) | _ => CmdBad end
     else if name =? "check" then CmdOp OCheck
     else if name =? "dump" then CmdDump
+    else if name =? "pool_new" then
+      match args with [TN a; TN b] => CmdPoolNew (zN a) (zN b) | _ => CmdBad end
+    else if name =? "checkout" then
+      match args with [TN i] => CmdPool (PCheckout (zN i)) | _ => CmdBad end
+    else if name =? "checkin" then
+      match args with [TN i] => CmdPool (PCheckin (zN i)) | _ => CmdBad end
     else if name =? "bb" then CmdNop      (* black-box run: nothing of the model is involved *)
     else CmdBad
   | _ => CmdBad
@@ -78,18 +85,29 @@ Definition observe (st : state) (o : op) (st' : state) : list tok :=
   | _ => []
   end.
 
-Definition step (st : state) (t : list tok) : state * list tok :=
+Definition pool_toks (p : pool) : list tok := [tN (p_used p); tN (p_cap p); tN (p_max p)].
+
+Definition step (sp : state * pool) (t : list tok) : (state * pool) * list tok :=
+  let '(st, pl) := sp in
   match parse t with
-  | CmdOp o => let st' := apply_op st o in (st', if panicked st' then [TS "panic"] else observe st o st')
-  | CmdDump => (st, dump st)
-  | CmdNop => (st, [])
-  | CmdBad => (st, [TS "badop"])
+  | CmdOp o => let st' := apply_op st o in ((st', pl), if panicked st' then [TS "panic"] else observe st o st')
+  | CmdDump => (sp, dump st)
+  | CmdNop => (sp, [])
+  | CmdPoolNew mn mx => let pl' := pool_new mn mx in ((st, pl'), pool_toks pl')
+  | CmdPool o =>
+    let pl' := pool_step pl o in
+    ((st, pl'),
+     match o with
+     | PCheckout id => tn_bool (snd (pool_checkout pl id)) :: pool_toks pl'
+     | PCheckin id => tn_bool (lmem id (p_held pl)) :: pool_toks pl'
+     end)
+  | CmdBad => (sp, [TS "badop"])
   end.
 
-Fixpoint run_from (st : state) (ops : list (list tok)) : list (list tok) :=
+Fixpoint run_from (sp : state * pool) (ops : list (list tok)) : list (list tok) :=
   match ops with
   | [] => []
-  | op :: ops' => let '(st', o) := step st op in o :: run_from st' ops'
+  | op :: ops' => let '(sp', o) := step sp op in o :: run_from sp' ops'
   end.
 
-Definition run_case (ops : list (list tok)) : list (list tok) := run_from init ops.
+Definition run_case (ops : list (list tok)) : list (list tok) := run_from (init, pool_new 0 0) ops.
